@@ -26,6 +26,25 @@ def _obs(out):
     return ""
 
 
+def x_eq_strict(line, out):
+    """both backends side by side, field by field (success or failure, returned values, the observed tree): for histories whose outcome does not depend on a
+    traversal order, so nothing is exempted after a copy that follows links"""
+    if "||" not in out:
+        return False
+    m, s, cut = c_wrap.x_split(out)
+
+    def norm(t):
+        fs = []
+        for f in t.split("\t"):
+            if f.startswith("E:"):
+                f = "E"
+            if f.startswith("#cwd=") and ";T{" in f:
+                f = "#T{" + f.split(";T{", 1)[1]
+            fs.append(f)
+        return fs
+    return norm(m) == norm(s)
+
+
 # ---- C05: any spelling, every method, both backends --------------------------------------------------------------------------
 SPELL_PRE = [op("mkdir_p", "/d/v"), op("write_all", "/d/file", b"F\n"), op("write_all", "/d/v/x", b"X"), op("mkdir_p", "/d/dir"), op("mkdir_p", "/home/u")]
 SPELLINGS = ["/d/missing/../file", "/d/file/../dir", "/d/file/", "/d/$V/x", "/d/${V}/x", "/d/dir/../file", "/d//file", "/d/./file", "/d/dir/..", "/d/file/.",
@@ -71,6 +90,14 @@ def copy_link_histories():
              [op("mkdir_p", "/dst/src/sub"), op("symlink", "/dst/src/sub/f", "/outside/f"), op("copy", "/src", "/dst")],
              [op("mkdir_p", "/dst/src/sub"), op("write_all", "/dst/src/sub/f", b"older and longer"), op("copy", "/src", "/dst")],
              [op("mkdir_p", "/dst/src/sub"), op("write_all", "/dst/src/sub/other", b"kept"), op("copy", "/src", "/dst")]]
+    # a followed link copied onto its own target, or into the directory that holds the target under the link's name: nothing may be lost
+    self_cases = [[op("symlink", "/src/sub/f", "/outside/f")], [op("symlink", "/lk", "/outside/f")], [op("symlink", "/outside/lk2", "f")]]
+    for pre_l, (a, b) in [(0, ("/src/sub/f", "/outside/f")), (0, ("/src/sub/f", "/outside")), (1, ("/lk", "/outside/f")), (1, ("/lk", "/outside")), (2, ("/outside/lk2", "/outside/f")),
+                          (2, ("/outside/lk2", "/outside"))]:
+        pre0 = [op("mkdir_p", "/src/sub"), op("mkdir_p", "/outside"), op("write_all", "/outside/f", b"precious")]
+        pre0 = [x for x in pre0 if not (pre_l == 0 and False)]
+        for o in ["follow=1", "follow=1,all=384", ""]:
+            hs.append(_line("x", pre0 + self_cases[pre_l] + ["copy_b:%s:%s:%s" % (hx(a), hx(b), o), op("read_all", "/outside/f"), op("is_symlink", a), op("all_paths", "/")]))
     probes = [op("read_all", "/outside/f"), op("read_all", "/src/sub/f"), op("is_symlink", "/dst/src"), op("is_symlink", "/dst/src/sub"), op("is_symlink", "/t/sub"),
               op("read_all", "/dst/src/sub/f"), op("read_all", "/dst/src/sub/other"), op("all_paths", "/")]
     for c in cases:
@@ -80,7 +107,7 @@ def copy_link_histories():
 
 
 def copy_link_stream(tag):
-    return Stream(tag + "-copy-onto-links-both-backends", "pycheck", copy_link_histories(), impl_env=c_wrap.sandbox_env(tag), pycheck=c_wrap.x_eq, exhaustive=True,
+    return Stream(tag + "-copy-onto-links-both-backends", "pycheck", copy_link_histories(), impl_env=c_wrap.sandbox_env(tag), pycheck=x_eq_strict, exhaustive=True,
                   nontrivial=lambda l, o: True,
                   rule="copy of a directory when the destination tree already holds, where the source has a directory or a file, a link to a directory or file elsewhere, "
                        "an older file or other entries: nothing outside the destination may change; Memfs and Stdfs (sandbox) side by side")
